@@ -8,6 +8,7 @@ from .. import netcase as N
 
 PROPERTY = "C15"
 LEVEL = "exploration"
+TECHNIQUE = 'property-based testing (Hypothesis): planted equivalence classes; oracle = O(n^2) pairwise reference + removal round trip'
 RULE = (
     "Reaction lists of 2-30 reactions with planted equivalence classes: permuted reactants/products, repeated "
     "species, members differing only in temperature window or only in type, runs of 3-5 repeats, several "
@@ -23,7 +24,7 @@ ASSUMPTIONS = [
     "one spelling convention per list, as the docstring of find_duplicate_reaction requires for string modes",
 ]
 MODES = [None, "brief", "minimal", "short"]
-NAMES = ["H", "H2", "H+", "H-", "e-", "C", "C+", "CH", "O", "OH", "H2O", "CO", "He", "He+", "H2+", "H3+", "Si", "S", "SiO", "oH2"]
+NAMES = ["H", "H2", "H+", "H-", "e-", "C", "C+", "CH", "O", "OH", "H2O", "CO", "He", "He+", "H2+", "H3+", "Si", "S", "SiO", "oH2", "#H", "#CO", "#H2O", "#H2", "D"]
 TYPES = [100, 101, 102, 110, 120]
 WINDOWS = [(-1.0, -1.0), (10.0, 300.0), (300.0, 1000.0), (10.0, 41000.0), (10.04, 300.0)]
 
@@ -55,6 +56,17 @@ def _case(draw):
             elif v == 1:
                 tt = draw(st.sampled_from(TYPES))  # type-only variant
             members.append({"r": rr, "p": pp, "tmin": ww[0], "tmax": ww[1], "type": tt})
+    if len(pool) >= 2 and draw(st.integers(0, 2)) == 0:
+        # same species on each side, same number of them, but another one is the repeated one: different reactions
+        a, b = pool[0], pool[1]
+        w = draw(st.sampled_from(WINDOWS))
+        t = draw(st.sampled_from(TYPES))
+        side = draw(st.sampled_from(["r", "p"]))
+        other = [draw(st.sampled_from(pool))]
+        for trip in ([a, a, b], [a, b, b]):
+            for _k in range(draw(st.integers(1, 2))):
+                tr = list(draw(st.permutations(trip)))
+                members.append({"r": tr if side == "r" else other, "p": other if side == "r" else tr, "tmin": w[0], "tmax": w[1], "type": t})
     order = draw(st.permutations(list(range(len(members)))))
     reactions = [members[i] for i in order][:30]
     return {"reactions": reactions, "mode": draw(st.sampled_from(MODES)), "requery": draw(st.booleans())}
